@@ -26,13 +26,14 @@ const (
 // HTTPRedirector implementations should use it before honouring
 // FormValueRedirect (see RedirectOptions.FollowRedirParam).
 func IsLocalRedirect(target string) bool {
-	s := strings.Map(func(r rune) rune {
-		if r == '\t' || r == '\n' || r == '\r' {
-			return -1
-		}
-		return r
-	}, target)
-	s = strings.TrimLeftFunc(s, func(r rune) bool { return r <= ' ' })
+	// Browsers drop TAB, CR and LF wherever they occur before they resolve a
+	// URL. Testing a copy without them is not enough: http.Redirect cleans
+	// the original value, so "#/../\t/host" leaves it as "/\t/host", which a
+	// browser then reads as "//host". No legitimate target contains them.
+	if strings.ContainsAny(target, "\t\n\r") {
+		return false
+	}
+	s := strings.TrimLeftFunc(target, func(r rune) bool { return r <= ' ' })
 
 	isSlash := func(c byte) bool { return c == '/' || c == '\\' }
 	if len(s) > 0 && s[0] == '\\' {
